@@ -3,6 +3,7 @@ package main
 import (
 	"context"
 	"fmt"
+	"io"
 	"math/rand"
 	"runtime"
 	"strings"
@@ -21,6 +22,20 @@ type c20Case struct {
 	// EchoDelayMs: the peer answers a Close frame only after this long (a close handshake is then still
 	// in progress when the final call is made)
 	EchoDelayMs int `json:"echo_delay_ms,omitempty"`
+	// SlowCloseMs: the transport's Close takes this long (whoever closes the connection - possibly one of the
+	// library's own goroutines - is then still inside it when the final call is made)
+	SlowCloseMs int `json:"slow_close_ms,omitempty"`
+}
+
+// slowCloser delays the transport's Close.
+type slowCloser struct {
+	*pipeEnd
+	d time.Duration
+}
+
+func (s slowCloser) Close() error {
+	time.Sleep(s.d)
+	return s.pipeEnd.Close()
 }
 
 // libGoroutines counts goroutines started by the library that are still alive.
@@ -51,7 +66,11 @@ func libGoroutines() (int, string) {
 func runC20Case(cc c20Case) (string, string) {
 	before, _ := libGoroutines()
 	a, b := newPipe()
-	c := websocket.VerifNewConn(a, cc.Client, websocket.VerifCopts{}, 0)
+	var rwc io.ReadWriteCloser = a
+	if cc.SlowCloseMs > 0 {
+		rwc = slowCloser{a, time.Duration(cc.SlowCloseMs) * time.Millisecond}
+	}
+	c := websocket.VerifNewConn(rwc, cc.Client, websocket.VerifCopts{}, 0)
 	peer := newRawPeer(b, !cc.Client)
 	bg, cancel := context.WithTimeout(context.Background(), 20*time.Second)
 	defer cancel()
@@ -287,8 +306,23 @@ func runC20(ctx *runCtx) {
 			cases = append(cases, c20Case{Client: client, Ops: []string{"closeread", "peer-data"}, End: "close-in-background", Then: t, EchoDelayMs: 400})
 		}
 	}
+	// the connection is ended by one of the library's own goroutines (the timeout watcher on context expiry, the
+	// CloseRead reader on a peer close / protocol error / unsolicited message) over a transport whose Close is slow:
+	// that goroutine is still inside close() when the final call is made
+	for _, t := range []string{"closenow", "close"} {
+		for _, client := range []bool{true, false} {
+			cases = append(cases, c20Case{Client: client, End: "ctx-expiry", Then: t, SlowCloseMs: 350})
+			cases = append(cases, c20Case{Client: client, Ops: []string{"closeread"}, End: "peer-close", Then: t, SlowCloseMs: 350})
+			cases = append(cases, c20Case{Client: client, Ops: []string{"closeread"}, End: "proto-error", Then: t, SlowCloseMs: 350})
+			cases = append(cases, c20Case{Client: client, Ops: []string{"closeread", "peer-data"}, End: "none", Then: t, SlowCloseMs: 350})
+		}
+	}
 	for i := 0; i < n; i++ {
-		cases = append(cases, genC20(rng))
+		cc := genC20(rng)
+		if i%10 == 9 {
+			cc.SlowCloseMs = 150 + rng.Intn(200)
+		}
+		cases = append(cases, cc)
 	}
 	for _, cc := range cases {
 		tc := time.Now()
